@@ -83,6 +83,14 @@ func (bs *blockSet) add(codec uint64, b []byte) cid.Cid {
 	return c
 }
 
+// absent: the CID of a dag-pb file node that is NOT put into the set
+func (bs *blockSet) absent(content []byte) cid.Cid {
+	b := dagpbNode(nil, ufsData(ufsFile, content, int64(len(content))))
+	h := sha256.Sum256(b)
+	m, _ := mh.Encode(h[:], mh.SHA2_256)
+	return cid.NewCidV1(cid.DagProtobuf, m)
+}
+
 func (bs *blockSet) file(content []byte) pbLink {
 	c := bs.add(cid.DagProtobuf, dagpbNode(nil, ufsData(ufsFile, content, int64(len(content)))))
 	return pbLink{Cid: c, Tsize: uint64(len(content))}
